@@ -78,6 +78,8 @@ pub struct GroupTruth {
     pub props: BTreeMap<u64, Vec<u64>>,
     pub apps: Vec<u64>,
     pub reinit_at: Option<u64>,
+    /// commits their committer withdrew (clear_pending_commit) before the DS decided
+    pub withdrawn: Vec<u64>,
 }
 
 #[derive(Clone, Debug, PartialEq, Eq)]
@@ -125,6 +127,8 @@ pub struct Mem {
     /// prior epochs recorded without secrets (the epoch an external joiner joined from)
     pub ret_nosecret: BTreeSet<u64>,
     pub rejoined_same_storage: bool,
+    /// reference of the key package this member joined with, until its first write (C07)
+    pub join_kp: Option<Vec<u8>>,
 }
 
 impl Default for Mem {
@@ -149,6 +153,7 @@ impl Default for Mem {
             ret_pending: Default::default(),
             ret_nosecret: Default::default(),
             rejoined_same_storage: false,
+            join_kp: None,
         }
     }
 }
@@ -1258,6 +1263,7 @@ impl World {
                 m.inbox.clear();
                 m.pending = None;
                 m.join_epoch = epoch + 1;
+                m.join_kp = None;
                 m.ret_pending.clear();
                 m.ret_pending.insert(epoch);
                 m.ret_nosecret.clear();
@@ -1402,6 +1408,7 @@ impl World {
                 if removed {
                     let m = self.mem(p, g);
                     m.status = Status::Removed;
+                    m.join_kp = None;
                     m.removed_obj = m.group.take();
                     m.inbox.clear();
                     self.stats.probe("member-removed");
@@ -1449,15 +1456,30 @@ impl World {
                     return Ok(true);
                 }
                 match expect {
-                    Expect::MustOk => Err(Violation::new(
-                        &prop,
-                        "liveness",
-                        format!("genuine-commit-rejected:{cls}"),
-                        format!(
-                            "P{p} (epoch {epoch}) rejected the genuine next commit {cid} from P{}: {e:?}",
-                            msg.sender
-                        ),
-                    )),
+                    Expect::MustOk => {
+                        let same = self.parties[p].mems[g].rejoined_same_storage;
+                        let sig = if same {
+                            format!("rejoin-same-storage:commit-rejected:{cls}")
+                        } else {
+                            format!("genuine-commit-rejected:{cls}")
+                        };
+                        if self.known.iter().any(|k| *k == sig) {
+                            self.ext.known_hits.push(sig);
+                            let m = self.mem(p, g);
+                            m.status = Status::Stuck("known finding: rejoined with the same storage".into());
+                            return Ok(true);
+                        }
+                        Err(Violation::new(
+                            &prop,
+                            "liveness",
+                            sig,
+                            format!(
+                                "P{p} (epoch {epoch}{}) rejected the genuine next commit {cid} from P{}: {e:?}",
+                                if same { ", re-joined on the storage that still holds its earlier membership" } else { "" },
+                                msg.sender
+                            ),
+                        ))
+                    }
                     Expect::MustErr | Expect::May => {
                         if let Some(reason) = crate::oracles::stuck_reason(self, p, g, cid) {
                             let m = self.mem(p, g);
@@ -1523,6 +1545,14 @@ impl World {
                 if !m.rejoined_same_storage {
                     m.ret_disk.clear();
                 }
+                // which of p's key packages the Welcome addressed
+                let kp = MlsMessage::from_bytes(&wb).ok().and_then(|wm| {
+                    wm.welcome_key_package_references()
+                        .into_iter()
+                        .map(|r| r.to_vec())
+                        .find(|r| self.kp_owner.get(r).map(|(o, _)| *o == p).unwrap_or(false))
+                });
+                self.mem(p, g).join_kp = kp;
                 self.ev(format!("join P{p} g{g} via {cid} ok e{epoch}"));
                 self.stats.result("join:ok");
                 self.reached_epoch(p, g, "welcome")?;
@@ -2005,6 +2035,7 @@ impl World {
         if let Some(c) = self.groups[g].candidates.get_mut(&epoch) {
             c.retain(|x| *x != cid);
         }
+        self.groups[g].withdrawn.push(cid);
         let pre = crate::oracles::before_op(self, p, g, "clear_pending")?;
         let _ = crate::oracles::lib_call(self, p, Some(g), "clear_pending_commit", |w| {
             w.parties[p].mems[g].group.as_mut().unwrap().clear_pending_commit();
@@ -2116,6 +2147,22 @@ impl World {
                 self.ev(format!("ext-commit P{p} g{g} e{latest} err {cls}"));
                 self.stats.result(&format!("ext_commit:err:{cls}"));
                 if psk.is_none() {
+                    // same storage as an earlier membership of this group (C07's returning member)
+                    let gid = self.groups[g].gid.clone();
+                    let same = self.cfg.same_storage_rejoin && self.parties[p].gstore.view(&gid).max_epoch.is_some();
+                    if same {
+                        let sig = format!("rejoin-same-storage:external-commit-failed:{cls}");
+                        if self.known.iter().any(|k| *k == sig) {
+                            self.ext.known_hits.push(sig);
+                            return Ok(true);
+                        }
+                        return Err(Violation::new(
+                            &prop,
+                            "liveness",
+                            sig,
+                            format!("P{p}, whose storage still holds epochs of an earlier membership of g{g}, could not build an external commit from P{src}'s current GroupInfo: {e:?}"),
+                        ));
+                    }
                     return Err(Violation::new(
                         &prop,
                         "liveness",
@@ -2185,6 +2232,18 @@ impl World {
         // for the member's *current* epoch is a valid commit from its point of view (choosing the winner
         // is the delivery service's job), so only commits for another epoch count as stale
         pool.retain(|c| Some(*c) != self.parties[p].mems[g].pending && self.msgs[c].epoch != epoch);
+        // a commit with update path that p itself built and then withdrew can never be processed by p again,
+        // whatever epoch it is for (CantProcessMessageFromSelf)
+        for c in &self.groups[g].withdrawn {
+            let m = &self.msgs[c];
+            if m.sender == p
+                && Some(*c) != self.parties[p].mems[g].pending
+                && self.ext.commit_has_path.get(c).copied().unwrap_or(false)
+                && !pool.contains(c)
+            {
+                pool.push(*c);
+            }
+        }
         if pool.is_empty() {
             return Ok(false);
         }
